@@ -255,14 +255,18 @@ Fixpoint series_loop (lbreak : Z -> Z -> bool) (abort : bool) (limit : Z) (i : Z
            end
   end.
 
-(* result: None = the request failed (error returned); Some frames = frames received by the client *)
-Definition proxy_series (lbreak : Z -> Z -> bool) (lazy wrl abort : bool) (rm : L -> L) (limit : Z) (batch : nat) (ss : list script)
+(* result: None = the request failed (error returned); Some frames = frames received by the client.
+   [abort_open]: a store whose stream cannot be opened fails the request (the negation of the
+   `!r.PartialResponseDisabled && r.PartialResponseStrategy != ABORT` test in the fan-out loop);
+   [abort_loop]: a warning in the merged stream fails the request (the
+   `r.PartialResponseDisabled || r.PartialResponseStrategy == ABORT` test in the send loop) *)
+Definition proxy_series (lbreak : Z -> Z -> bool) (lazy wrl abort_open abort_loop : bool) (rm : L -> L) (limit : Z) (batch : nat) (ss : list script)
   : option (list frame) :=
-  match open_all abort ss with
+  match open_all abort_open ss with
   | None => None
   | Some (ws, os) =>
       let merged := lt_merge (map (resp_set lazy wrl rm) os) in
-      let '(out, aborted) := series_loop lbreak abort limit 0 (dedup None merged) in
+      let '(out, aborted) := series_loop lbreak abort_loop limit 0 (dedup None merged) in
       if aborted then None
       else Some (send_all batch true (map RWarn ws ++ out))
   end.
